@@ -29,6 +29,7 @@ class Poly:
     """sparse polynomial: packed-monomial int -> Fraction"""
 
     __slots__ = ("t",)
+    MUL_LIMIT = 3_000_000
 
     def __init__(self, t=None):
         self.t = t if t is not None else {}
@@ -95,6 +96,8 @@ class Poly:
             return Poly()
         if len(a) > len(b):
             a, b = b, a
+        if len(a) * len(b) > Poly.MUL_LIMIT:
+            raise MemoryError("polynomial product of %d x %d terms exceeds the triage budget" % (len(a), len(b)))
         if len(a) == 1:
             ((m1, c1),) = a.items()
             if m1 == 0:
@@ -302,9 +305,13 @@ class Normalizer:
         return r
 
     # ------------------------------------------------------------------ poly
-    def poly(self, root: Node, max_terms=2_000_000) -> Poly:
+    MAX_TERMS = 60_000
+
+    def poly(self, root: Node, max_terms=None) -> Poly:
         """exact expansion of a division-free node (atoms are generators)"""
         P = self._poly
+        if max_terms is None:
+            max_terms = self.MAX_TERMS
         if root.id in P:
             return P[root.id]
         for m in self._topo_poly(root):
@@ -382,7 +389,7 @@ class Normalizer:
                 p = acc
         return p
 
-    def poly_unreduced(self, root: Node, max_terms=2_000_000) -> Poly:
+    def poly_unreduced(self, root: Node, max_terms=None) -> Poly:
         """expansion with atoms as free generators (no g^q -> base rewriting)"""
         saved_poly = self._poly
         self._poly = self.__dict__.setdefault("_poly_unred", {})
